@@ -1845,3 +1845,57 @@ def adconstraint_replay(cases):
             rec["error"] = "%s: %s" % (type(e).__name__, e)
         out.append(rec)
     return {"results": out}
+
+
+def definecache_replay(cases):
+    """Spec -> code replay for DefineCache.tla: a history of mutating calls is executed on a real engine_stack.DefineCache and
+    every goal of the model's universe is then looked up (__contains__, __getitem__, getEvalNode)."""
+    from problog.engine_stack import DefineCache
+    from problog.logic import Term
+
+    def arg(x):
+        return Term("c%d" % x) if x > 0 else x          # variables are negative integers in the engine
+
+    def unarg(x):
+        return x if isinstance(x, int) else int(str(x)[1:])
+
+    def goal(g):
+        return ("p%d" % g[0], tuple(arg(x) for x in g[1]))
+
+    out = []
+    for c in cases:
+        rec = {"id": c["id"]}
+        try:
+            cache = DefineCache({("p%d" % f, 2) for f in c["dont"]})
+            for e in c["hist"]:
+                if e["k"] == "set":
+                    results = {}
+                    for key, node in e["res"]:
+                        results[tuple(arg(x) for x in key)] = node
+                    cache[goal(e["g"])] = results
+                elif e["k"] == "del":
+                    del cache[goal(e["g"])]
+                elif e["k"] == "reset":
+                    cache.reset()
+                elif e["k"] == "act":
+                    cache.activate(goal(e["g"]), e["res"][0][1])
+                elif e["k"] == "deact":
+                    cache.deactivate(goal(e["g"]))
+            tab = []
+            for t in c["goals"]:
+                g = goal(t)
+                hit = int(g in cache)
+                items = []
+                if hit:
+                    for key, node in cache[g]:
+                        items.append([[unarg(x) for x in key], -1 if node is None else node])
+                got = cache.get(g)
+                if (got is None) != (not hit):
+                    rec["error"] = "get/contains disagree on %s" % (t,)
+                a = cache.getEvalNode(g)
+                tab.append({"g": t, "hit": hit, "items": items, "a": 0 if a is None else a})
+            rec["tab"] = tab
+        except Exception as e:       # noqa
+            rec["error"] = "%s: %s" % (type(e).__name__, e)
+        out.append(rec)
+    return {"results": out}
